@@ -24,10 +24,10 @@ type c20Case struct {
 	Tool   string `json:"tool"`   // make-iso | decrypt-redump | decrypt-3k3y
 	Output string `json:"output"` // new | stdout | existing-file | existing-dir | existing-symlink
 	// make-iso
-	Tree *hx.Node `json:"tree,omitempty"`
-	PS3  bool     `json:"ps3,omitempty"`
-	TitleID string `json:"title_id,omitempty"`
-	RootName string `json:"root_name,omitempty"`
+	Tree     *hx.Node `json:"tree,omitempty"`
+	PS3      bool     `json:"ps3,omitempty"`
+	TitleID  string   `json:"title_id,omitempty"`
+	RootName string   `json:"root_name,omitempty"`
 	// decrypt
 	Key     hx.BStr           `json:"key,omitempty"`
 	Regions []refcrypt.Region `json:"regions,omitempty"`
